@@ -123,9 +123,14 @@ class EndpointsEmitter:
         for op in operations:
             method_name = NameSanitizer.sanitize_method_name(op.operation_id)
             if method_name in seen_methods:
-                seen_methods[method_name] += 1
-                new_op_id = f"{op.operation_id}_{seen_methods[method_name]}"
-                op.operation_id = new_op_id
+                # Pick the first suffix whose method name is still free: the suffixed name may itself be another
+                # operation's id (a, a, a_2), and the result must be stable when emit() runs again
+                counter = seen_methods[method_name] + 1
+                while NameSanitizer.sanitize_method_name(f"{op.operation_id}_{counter}") in seen_methods:
+                    counter += 1
+                seen_methods[method_name] = counter
+                op.operation_id = f"{op.operation_id}_{counter}"
+                seen_methods[NameSanitizer.sanitize_method_name(op.operation_id)] = 1
             else:
                 seen_methods[method_name] = 1
 
